@@ -80,7 +80,7 @@ class Session:
             if s["verts"] is not None:
                 s["verts"] = s["verts"] + [v]
         self.lines.append({"op": "mdl.add_shape", "h": 1, "case": self.n, "lod": l, "shape": 0, "shape_mesh": s["shape_meshes"],
-                           "part": j, "values": vals})
+                           "part": j, "values": vals, "shape_name": list(b"shp_a")})
         s["shape_meshes"] += 1
 
     def remove_shapes(self):
@@ -124,6 +124,15 @@ def random_history(n, rng, tier):
         i = rng.choice([0, 3, 6, 8, 9, 24, 300])
         ses.replace(l, j, v, i)
         calls.append(["replace", l, j, v, i])
+        # now and then: shapes removed, then a shape mesh added to some mesh that has indices (any LOD, any part)
+        if rng.random() < 0.35:
+            ses.remove_shapes()
+            l2 = rng.randrange(len(lods_abs))
+            j2 = rng.randrange(len(lods_abs[l2]))
+            st = ses.state[l2][j2]
+            if st["indices"] and st["verts"] is not None and len(st["verts"]) >= 1:
+                ses.add_shape(l2, j2, rng.randint(1, 2))
+                calls.append(["remove_shapes+add_shape", l2, j2])
     return Case(ses.lines, desc={"random history": calls})
 
 
